@@ -3,9 +3,13 @@ package c06
 import (
 	"bytes"
 	"encoding/base64"
+	"encoding/hex"
+	"encoding/json"
 	"fmt"
 	"io"
 	"net/netip"
+	"os"
+	"path/filepath"
 	"strings"
 	"testing"
 	"time"
@@ -33,7 +37,11 @@ func basic(u, p string) string {
 }
 
 func httpServerSeeds() (sels []uint8, clients, origins [][]byte) {
-	add := func(sel uint8, c, o string) { sels = append(sels, sel); clients = append(clients, []byte(c)); origins = append(origins, []byte(o)) }
+	add := func(sel uint8, c, o string) {
+		sels = append(sels, sel)
+		clients = append(clients, []byte(c))
+		origins = append(origins, []byte(o))
+	}
 	ok := "HTTP/1.1 200 OK\r\nContent-Length: 5\r\n\r\nhello"
 	// the repo's own client encoder
 	for _, ta := range []conn.Addr{
@@ -106,7 +114,9 @@ func FuzzHTTPServer(f *testing.F) {
 	for _, i := range thin(len(clients), 160) {
 		f.Add(sels[i]|uint8(i%5/4)<<2, uint16(i%3), clients[i], origins[i])
 	}
-	f.Fuzz(func(t *testing.T, sel uint8, frag uint16, client, origin []byte) { oracleHTTPServer(t, sel, frag, client, origin) })
+	f.Fuzz(func(t *testing.T, sel uint8, frag uint16, client, origin []byte) {
+		oracleHTTPServer(t, sel, frag, client, origin)
+	})
 }
 
 // sel: bit0 basic auth enabled, bit1 unused (kept for seed diversity), bit2 Abort instead of Proceed
@@ -152,7 +162,12 @@ func oracleHTTPServer(t failer, sel uint8, frag uint16, client, origin []byte) (
 			return
 		}
 		if pc, ok := c.(*netio.PipeConn); ok {
-			// plain request: we are the origin behind the dialled connection.
+			// plain request: we are the origin behind the dialled connection. The forwarding runs on goroutines of the
+			// code under test: a panic there ends the process, so the case is journaled first (outside the fuzz engine,
+			// which saves its own crashers).
+			if done := journalHTTP(sel, frag, client, origin); done != nil {
+				defer done()
+			}
 			got := make(chan int64, 1)
 			go func() {
 				n, _ := io.Copy(io.Discard, pc)
@@ -199,6 +214,55 @@ func oracleHTTPServer(t failer, sel uint8, frag uint16, client, origin []byte) (
 	cls := addrClass(req.Addr)
 	recHTTPServer.Case(fmt.Sprintf("%s/%d/%s", form, sel&1, cls), res.routed > 0 && wrote, append(labels, "class:"+cls)...)
 	return
+}
+
+type httpJournal struct {
+	Type   string `json:"type"`
+	Sel    uint8  `json:"sel"`
+	Frag   uint16 `json:"frag"`
+	Client string `json:"client"`
+	Origin string `json:"origin"`
+}
+
+var isFuzzWorker = func() bool {
+	for _, a := range os.Args {
+		if strings.HasPrefix(a, "-test.fuzzworker") {
+			return true
+		}
+	}
+	return false
+}()
+
+func journalHTTP(sel uint8, frag uint16, client, origin []byte) func() {
+	w := os.Getenv("VERIF_WORK")
+	if w == "" || isFuzzWorker {
+		return nil
+	}
+	p := filepath.Join(w, fmt.Sprintf("journal-http-%d.json", os.Getpid()))
+	b, _ := json.Marshal(httpJournal{"http-forward", sel, frag, hex.EncodeToString(client), hex.EncodeToString(origin)})
+	if os.WriteFile(p, b, 0o644) != nil {
+		return nil
+	}
+	return func() { os.Remove(p) }
+}
+
+// TestReplayHTTP re-runs a journaled plain-HTTP forwarding case ($VERIF_REPLAY).
+func TestReplayHTTP(t *testing.T) {
+	p := os.Getenv("VERIF_REPLAY")
+	if p == "" {
+		t.Skip("VERIF_REPLAY not set")
+	}
+	b, err := os.ReadFile(p)
+	if err != nil {
+		t.Fatal(err)
+	}
+	var j httpJournal
+	if json.Unmarshal(b, &j) != nil || j.Type != "http-forward" {
+		t.Skip("not an http-forward journal")
+	}
+	c, _ := hex.DecodeString(j.Client)
+	o, _ := hex.DecodeString(j.Origin)
+	oracleHTTPServer(t, j.Sel, j.Frag, c, o)
 }
 
 func trunc(b []byte) []byte {
